@@ -8,7 +8,7 @@
                      program order with the short circuits), select,
                      handle_read (recv; received() as far as it touches the
                      request queue; EOF -> handle_close), handle_write (choice
-                     of _flush_some / _flush_some_if_lockable / nothing,
+                     of _flush_some_if_lockable / nothing,
                      _flush_exception, the close_when_flushed / will_close
                      tail), _flush_some_if_lockable, _flush_some with
                      do_close=True, handle_close + wasyncore.dispatcher.close.
@@ -19,13 +19,16 @@
                      request), write_soon, _flush_outbufs_below_high_watermark
                      (called from write_soon, ctx FW, and from service(), ctx
                      FS), _flush_some with do_close=False through
-                     _flush_exception, the close branch and the keep branch of
-                     service() up to the release of requests_lock.
-             T       the tail of service() ("if self.connected:
-                     self.server.pull_trigger()"), which runs after add_task and
-                     may therefore overlap the next service() on another pool
-                     thread: tailsA = tails before their read of connected,
-                     tailsB = tails that read True and have not pulled yet.
+                     _flush_exception, the close branch of service() and the
+                     keep branch up to its last access to the output state.
+             T       the end of the keep branch of service(): "with
+                     self.requests_lock: requests.pop(0); if connected and
+                     requests: add_task" ([tlc], then [trel] until the release) and
+                     "if self.connected: self.server.pull_trigger()".  add_task
+                     happens inside, so the next service() may start on another
+                     pool thread while this one still holds requests_lock or has
+                     not pulled the trigger: tailsA = threads before their read of
+                     connected, tailsB = threads that read True and have not pulled.
              ENV     the client: stalls / resumes reading, disconnects, sends one
                      more request; the kernel: every socket send takes an
                      outcome [sendres] from the schedule (k bytes accepted with
@@ -42,8 +45,8 @@
    outbuf_lock of an attribute that is only written under outbuf_lock
    (total_outbufs_len, connected) are fused into the preceding step of the same
    thread; so are the decisions that depend on them.  "total_outbufs_len -= n"
-   is one step under the lock and a read step followed by a write step in the
-   unlocked flush of the I/O thread.  Code between two steps touches only
+   is one step (every such update happens under outbuf_lock since /repo 8bcf05e:
+   handle_write flushes through _flush_some_if_lockable in both of its branches).  Code between two steps touches only
    thread-local data (checked by the shape audit in harness/chanflow.py).
 
    ABSTRACTIONS, AND WHY THEY ARE SOUND FOR C12
@@ -85,12 +88,11 @@ Inductive envact := EStall | EResume | EGone | EArrive.
 Inductive choice :=
 | CIo (r : sendres) (res : Z)   (* the I/O thread moves; r: outcome if the step is a send; res: residue if it closes the outbufs *)
 | CW (r : sendres)              (* the worker moves *)
-| CTail (b : bool)              (* a service() tail moves: false = reads connected, true = pulls the trigger *)
+| CTail (n : nat)               (* the thread that ends a service() moves: 0 acquire requests_lock, 1 pop, 2 connected/add_task, 3 release, 4 read connected, 5 pull the trigger *)
 | CEnv (a : envact).
 
 Inductive fctx := FW | FS | FA.        (* _flush_some called from: flush_below in write_soon / flush_below in service / after the append *)
-Inductive fmode := MU | ML.            (* I/O-side flush: unlocked / under the try-acquired lock *)
-Inductive hck := KRead | KFlush (m : fmode) | KEnd.   (* who called handle_close *)
+Inductive hck := KRead | KFlush | KEnd.   (* who called handle_close: recv / send inside _flush_some / the end of handle_write *)
 
 Inductive iopc :=
 | IoRd1 | IoRd2 | IoRd3 | IoRd4
@@ -99,7 +101,7 @@ Inductive iopc :=
 | IoRecv (ww : bool)
 | IoRcvAcq (ww : bool) | IoRcvWc (ww : bool) | IoRcvCwf (ww : bool) | IoRcvApp (ww : bool) | IoRcvRel (ww : bool)
 | IoHw1 | IoHw2 | IoTry
-| IoFlush (m : fmode) | IoSubL (k : Z) | IoSubR (k : Z) | IoSubW (k t : Z)
+| IoFlush | IoSubL (k : Z)
 | IoRelX | IoHwExn
 | IoNotify | IoRelL
 | IoHw3 | IoHw4 | IoHw5 | IoHw6 | IoHw7
@@ -125,8 +127,12 @@ Inductive wpc :=
 | WFbTest
 | WFbAcq
 | WFbRel
-| WCloseAcq | WCloseCwf | WCloseReq | WCloseRel
-| WPopAcq | WPopPop | WPopConn | WPopRel.
+| WCloseAcq | WCloseCwf | WCloseReq | WCloseRel.
+
+(* the thread that finished the keep branch of service(): its requests_lock section (496-500);
+   add_task happens inside it, so the NEXT service() may start on another pool thread while this one
+   still holds requests_lock / has not pulled the trigger *)
+Inductive tlpc := TNone | TAcq | TPop | TConn.
 
 (* what a step is, for the trace comparison and the shape audit *)
 Inductive kind :=
@@ -168,6 +174,8 @@ Record state := mkSt {
   wclose : bool;
   cur : nat;
   queued : bool;
+  tlc : tlpc;
+  trel : bool;
   tailsA : nat;
   tailsB : nat;
   appended : Z;
@@ -176,63 +184,67 @@ Record state := mkSt {
 }.
 
 Definition set_total (v : Z) (s : state) : state :=
-  mkSt v (pending s) (connected s) (will_close s) (cwf s) (nreq s) (olock s) (ocount s) (rlock s) (pulled s) (in_map s) (sock_closed s) (closed_bufs s) (reading s) (gone s) (pending_in s) (io s) (wk s) (wq s) (wclose s) (cur s) (queued s) (tailsA s) (tailsB s) (appended s) (wire s) (last_write s).
+  mkSt v (pending s) (connected s) (will_close s) (cwf s) (nreq s) (olock s) (ocount s) (rlock s) (pulled s) (in_map s) (sock_closed s) (closed_bufs s) (reading s) (gone s) (pending_in s) (io s) (wk s) (wq s) (wclose s) (cur s) (queued s) (tlc s) (trel s) (tailsA s) (tailsB s) (appended s) (wire s) (last_write s).
 Definition set_pending (v : Z) (s : state) : state :=
-  mkSt (total s) v (connected s) (will_close s) (cwf s) (nreq s) (olock s) (ocount s) (rlock s) (pulled s) (in_map s) (sock_closed s) (closed_bufs s) (reading s) (gone s) (pending_in s) (io s) (wk s) (wq s) (wclose s) (cur s) (queued s) (tailsA s) (tailsB s) (appended s) (wire s) (last_write s).
+  mkSt (total s) v (connected s) (will_close s) (cwf s) (nreq s) (olock s) (ocount s) (rlock s) (pulled s) (in_map s) (sock_closed s) (closed_bufs s) (reading s) (gone s) (pending_in s) (io s) (wk s) (wq s) (wclose s) (cur s) (queued s) (tlc s) (trel s) (tailsA s) (tailsB s) (appended s) (wire s) (last_write s).
 Definition set_connected (v : bool) (s : state) : state :=
-  mkSt (total s) (pending s) v (will_close s) (cwf s) (nreq s) (olock s) (ocount s) (rlock s) (pulled s) (in_map s) (sock_closed s) (closed_bufs s) (reading s) (gone s) (pending_in s) (io s) (wk s) (wq s) (wclose s) (cur s) (queued s) (tailsA s) (tailsB s) (appended s) (wire s) (last_write s).
+  mkSt (total s) (pending s) v (will_close s) (cwf s) (nreq s) (olock s) (ocount s) (rlock s) (pulled s) (in_map s) (sock_closed s) (closed_bufs s) (reading s) (gone s) (pending_in s) (io s) (wk s) (wq s) (wclose s) (cur s) (queued s) (tlc s) (trel s) (tailsA s) (tailsB s) (appended s) (wire s) (last_write s).
 Definition set_will_close (v : bool) (s : state) : state :=
-  mkSt (total s) (pending s) (connected s) v (cwf s) (nreq s) (olock s) (ocount s) (rlock s) (pulled s) (in_map s) (sock_closed s) (closed_bufs s) (reading s) (gone s) (pending_in s) (io s) (wk s) (wq s) (wclose s) (cur s) (queued s) (tailsA s) (tailsB s) (appended s) (wire s) (last_write s).
+  mkSt (total s) (pending s) (connected s) v (cwf s) (nreq s) (olock s) (ocount s) (rlock s) (pulled s) (in_map s) (sock_closed s) (closed_bufs s) (reading s) (gone s) (pending_in s) (io s) (wk s) (wq s) (wclose s) (cur s) (queued s) (tlc s) (trel s) (tailsA s) (tailsB s) (appended s) (wire s) (last_write s).
 Definition set_cwf (v : bool) (s : state) : state :=
-  mkSt (total s) (pending s) (connected s) (will_close s) v (nreq s) (olock s) (ocount s) (rlock s) (pulled s) (in_map s) (sock_closed s) (closed_bufs s) (reading s) (gone s) (pending_in s) (io s) (wk s) (wq s) (wclose s) (cur s) (queued s) (tailsA s) (tailsB s) (appended s) (wire s) (last_write s).
+  mkSt (total s) (pending s) (connected s) (will_close s) v (nreq s) (olock s) (ocount s) (rlock s) (pulled s) (in_map s) (sock_closed s) (closed_bufs s) (reading s) (gone s) (pending_in s) (io s) (wk s) (wq s) (wclose s) (cur s) (queued s) (tlc s) (trel s) (tailsA s) (tailsB s) (appended s) (wire s) (last_write s).
 Definition set_nreq (v : nat) (s : state) : state :=
-  mkSt (total s) (pending s) (connected s) (will_close s) (cwf s) v (olock s) (ocount s) (rlock s) (pulled s) (in_map s) (sock_closed s) (closed_bufs s) (reading s) (gone s) (pending_in s) (io s) (wk s) (wq s) (wclose s) (cur s) (queued s) (tailsA s) (tailsB s) (appended s) (wire s) (last_write s).
+  mkSt (total s) (pending s) (connected s) (will_close s) (cwf s) v (olock s) (ocount s) (rlock s) (pulled s) (in_map s) (sock_closed s) (closed_bufs s) (reading s) (gone s) (pending_in s) (io s) (wk s) (wq s) (wclose s) (cur s) (queued s) (tlc s) (trel s) (tailsA s) (tailsB s) (appended s) (wire s) (last_write s).
 Definition set_olock (v : option tid) (s : state) : state :=
-  mkSt (total s) (pending s) (connected s) (will_close s) (cwf s) (nreq s) v (ocount s) (rlock s) (pulled s) (in_map s) (sock_closed s) (closed_bufs s) (reading s) (gone s) (pending_in s) (io s) (wk s) (wq s) (wclose s) (cur s) (queued s) (tailsA s) (tailsB s) (appended s) (wire s) (last_write s).
+  mkSt (total s) (pending s) (connected s) (will_close s) (cwf s) (nreq s) v (ocount s) (rlock s) (pulled s) (in_map s) (sock_closed s) (closed_bufs s) (reading s) (gone s) (pending_in s) (io s) (wk s) (wq s) (wclose s) (cur s) (queued s) (tlc s) (trel s) (tailsA s) (tailsB s) (appended s) (wire s) (last_write s).
 Definition set_ocount (v : nat) (s : state) : state :=
-  mkSt (total s) (pending s) (connected s) (will_close s) (cwf s) (nreq s) (olock s) v (rlock s) (pulled s) (in_map s) (sock_closed s) (closed_bufs s) (reading s) (gone s) (pending_in s) (io s) (wk s) (wq s) (wclose s) (cur s) (queued s) (tailsA s) (tailsB s) (appended s) (wire s) (last_write s).
+  mkSt (total s) (pending s) (connected s) (will_close s) (cwf s) (nreq s) (olock s) v (rlock s) (pulled s) (in_map s) (sock_closed s) (closed_bufs s) (reading s) (gone s) (pending_in s) (io s) (wk s) (wq s) (wclose s) (cur s) (queued s) (tlc s) (trel s) (tailsA s) (tailsB s) (appended s) (wire s) (last_write s).
 Definition set_rlock (v : option tid) (s : state) : state :=
-  mkSt (total s) (pending s) (connected s) (will_close s) (cwf s) (nreq s) (olock s) (ocount s) v (pulled s) (in_map s) (sock_closed s) (closed_bufs s) (reading s) (gone s) (pending_in s) (io s) (wk s) (wq s) (wclose s) (cur s) (queued s) (tailsA s) (tailsB s) (appended s) (wire s) (last_write s).
+  mkSt (total s) (pending s) (connected s) (will_close s) (cwf s) (nreq s) (olock s) (ocount s) v (pulled s) (in_map s) (sock_closed s) (closed_bufs s) (reading s) (gone s) (pending_in s) (io s) (wk s) (wq s) (wclose s) (cur s) (queued s) (tlc s) (trel s) (tailsA s) (tailsB s) (appended s) (wire s) (last_write s).
 Definition set_pulled (v : bool) (s : state) : state :=
-  mkSt (total s) (pending s) (connected s) (will_close s) (cwf s) (nreq s) (olock s) (ocount s) (rlock s) v (in_map s) (sock_closed s) (closed_bufs s) (reading s) (gone s) (pending_in s) (io s) (wk s) (wq s) (wclose s) (cur s) (queued s) (tailsA s) (tailsB s) (appended s) (wire s) (last_write s).
+  mkSt (total s) (pending s) (connected s) (will_close s) (cwf s) (nreq s) (olock s) (ocount s) (rlock s) v (in_map s) (sock_closed s) (closed_bufs s) (reading s) (gone s) (pending_in s) (io s) (wk s) (wq s) (wclose s) (cur s) (queued s) (tlc s) (trel s) (tailsA s) (tailsB s) (appended s) (wire s) (last_write s).
 Definition set_in_map (v : bool) (s : state) : state :=
-  mkSt (total s) (pending s) (connected s) (will_close s) (cwf s) (nreq s) (olock s) (ocount s) (rlock s) (pulled s) v (sock_closed s) (closed_bufs s) (reading s) (gone s) (pending_in s) (io s) (wk s) (wq s) (wclose s) (cur s) (queued s) (tailsA s) (tailsB s) (appended s) (wire s) (last_write s).
+  mkSt (total s) (pending s) (connected s) (will_close s) (cwf s) (nreq s) (olock s) (ocount s) (rlock s) (pulled s) v (sock_closed s) (closed_bufs s) (reading s) (gone s) (pending_in s) (io s) (wk s) (wq s) (wclose s) (cur s) (queued s) (tlc s) (trel s) (tailsA s) (tailsB s) (appended s) (wire s) (last_write s).
 Definition set_sock_closed (v : bool) (s : state) : state :=
-  mkSt (total s) (pending s) (connected s) (will_close s) (cwf s) (nreq s) (olock s) (ocount s) (rlock s) (pulled s) (in_map s) v (closed_bufs s) (reading s) (gone s) (pending_in s) (io s) (wk s) (wq s) (wclose s) (cur s) (queued s) (tailsA s) (tailsB s) (appended s) (wire s) (last_write s).
+  mkSt (total s) (pending s) (connected s) (will_close s) (cwf s) (nreq s) (olock s) (ocount s) (rlock s) (pulled s) (in_map s) v (closed_bufs s) (reading s) (gone s) (pending_in s) (io s) (wk s) (wq s) (wclose s) (cur s) (queued s) (tlc s) (trel s) (tailsA s) (tailsB s) (appended s) (wire s) (last_write s).
 Definition set_closed_bufs (v : bool) (s : state) : state :=
-  mkSt (total s) (pending s) (connected s) (will_close s) (cwf s) (nreq s) (olock s) (ocount s) (rlock s) (pulled s) (in_map s) (sock_closed s) v (reading s) (gone s) (pending_in s) (io s) (wk s) (wq s) (wclose s) (cur s) (queued s) (tailsA s) (tailsB s) (appended s) (wire s) (last_write s).
+  mkSt (total s) (pending s) (connected s) (will_close s) (cwf s) (nreq s) (olock s) (ocount s) (rlock s) (pulled s) (in_map s) (sock_closed s) v (reading s) (gone s) (pending_in s) (io s) (wk s) (wq s) (wclose s) (cur s) (queued s) (tlc s) (trel s) (tailsA s) (tailsB s) (appended s) (wire s) (last_write s).
 Definition set_reading (v : bool) (s : state) : state :=
-  mkSt (total s) (pending s) (connected s) (will_close s) (cwf s) (nreq s) (olock s) (ocount s) (rlock s) (pulled s) (in_map s) (sock_closed s) (closed_bufs s) v (gone s) (pending_in s) (io s) (wk s) (wq s) (wclose s) (cur s) (queued s) (tailsA s) (tailsB s) (appended s) (wire s) (last_write s).
+  mkSt (total s) (pending s) (connected s) (will_close s) (cwf s) (nreq s) (olock s) (ocount s) (rlock s) (pulled s) (in_map s) (sock_closed s) (closed_bufs s) v (gone s) (pending_in s) (io s) (wk s) (wq s) (wclose s) (cur s) (queued s) (tlc s) (trel s) (tailsA s) (tailsB s) (appended s) (wire s) (last_write s).
 Definition set_gone (v : bool) (s : state) : state :=
-  mkSt (total s) (pending s) (connected s) (will_close s) (cwf s) (nreq s) (olock s) (ocount s) (rlock s) (pulled s) (in_map s) (sock_closed s) (closed_bufs s) (reading s) v (pending_in s) (io s) (wk s) (wq s) (wclose s) (cur s) (queued s) (tailsA s) (tailsB s) (appended s) (wire s) (last_write s).
+  mkSt (total s) (pending s) (connected s) (will_close s) (cwf s) (nreq s) (olock s) (ocount s) (rlock s) (pulled s) (in_map s) (sock_closed s) (closed_bufs s) (reading s) v (pending_in s) (io s) (wk s) (wq s) (wclose s) (cur s) (queued s) (tlc s) (trel s) (tailsA s) (tailsB s) (appended s) (wire s) (last_write s).
 Definition set_pending_in (v : nat) (s : state) : state :=
-  mkSt (total s) (pending s) (connected s) (will_close s) (cwf s) (nreq s) (olock s) (ocount s) (rlock s) (pulled s) (in_map s) (sock_closed s) (closed_bufs s) (reading s) (gone s) v (io s) (wk s) (wq s) (wclose s) (cur s) (queued s) (tailsA s) (tailsB s) (appended s) (wire s) (last_write s).
+  mkSt (total s) (pending s) (connected s) (will_close s) (cwf s) (nreq s) (olock s) (ocount s) (rlock s) (pulled s) (in_map s) (sock_closed s) (closed_bufs s) (reading s) (gone s) v (io s) (wk s) (wq s) (wclose s) (cur s) (queued s) (tlc s) (trel s) (tailsA s) (tailsB s) (appended s) (wire s) (last_write s).
 Definition set_io (v : iopc) (s : state) : state :=
-  mkSt (total s) (pending s) (connected s) (will_close s) (cwf s) (nreq s) (olock s) (ocount s) (rlock s) (pulled s) (in_map s) (sock_closed s) (closed_bufs s) (reading s) (gone s) (pending_in s) v (wk s) (wq s) (wclose s) (cur s) (queued s) (tailsA s) (tailsB s) (appended s) (wire s) (last_write s).
+  mkSt (total s) (pending s) (connected s) (will_close s) (cwf s) (nreq s) (olock s) (ocount s) (rlock s) (pulled s) (in_map s) (sock_closed s) (closed_bufs s) (reading s) (gone s) (pending_in s) v (wk s) (wq s) (wclose s) (cur s) (queued s) (tlc s) (trel s) (tailsA s) (tailsB s) (appended s) (wire s) (last_write s).
 Definition set_wk (v : wpc) (s : state) : state :=
-  mkSt (total s) (pending s) (connected s) (will_close s) (cwf s) (nreq s) (olock s) (ocount s) (rlock s) (pulled s) (in_map s) (sock_closed s) (closed_bufs s) (reading s) (gone s) (pending_in s) (io s) v (wq s) (wclose s) (cur s) (queued s) (tailsA s) (tailsB s) (appended s) (wire s) (last_write s).
+  mkSt (total s) (pending s) (connected s) (will_close s) (cwf s) (nreq s) (olock s) (ocount s) (rlock s) (pulled s) (in_map s) (sock_closed s) (closed_bufs s) (reading s) (gone s) (pending_in s) (io s) v (wq s) (wclose s) (cur s) (queued s) (tlc s) (trel s) (tailsA s) (tailsB s) (appended s) (wire s) (last_write s).
 Definition set_wq (v : list Z) (s : state) : state :=
-  mkSt (total s) (pending s) (connected s) (will_close s) (cwf s) (nreq s) (olock s) (ocount s) (rlock s) (pulled s) (in_map s) (sock_closed s) (closed_bufs s) (reading s) (gone s) (pending_in s) (io s) (wk s) v (wclose s) (cur s) (queued s) (tailsA s) (tailsB s) (appended s) (wire s) (last_write s).
+  mkSt (total s) (pending s) (connected s) (will_close s) (cwf s) (nreq s) (olock s) (ocount s) (rlock s) (pulled s) (in_map s) (sock_closed s) (closed_bufs s) (reading s) (gone s) (pending_in s) (io s) (wk s) v (wclose s) (cur s) (queued s) (tlc s) (trel s) (tailsA s) (tailsB s) (appended s) (wire s) (last_write s).
 Definition set_wclose (v : bool) (s : state) : state :=
-  mkSt (total s) (pending s) (connected s) (will_close s) (cwf s) (nreq s) (olock s) (ocount s) (rlock s) (pulled s) (in_map s) (sock_closed s) (closed_bufs s) (reading s) (gone s) (pending_in s) (io s) (wk s) (wq s) v (cur s) (queued s) (tailsA s) (tailsB s) (appended s) (wire s) (last_write s).
+  mkSt (total s) (pending s) (connected s) (will_close s) (cwf s) (nreq s) (olock s) (ocount s) (rlock s) (pulled s) (in_map s) (sock_closed s) (closed_bufs s) (reading s) (gone s) (pending_in s) (io s) (wk s) (wq s) v (cur s) (queued s) (tlc s) (trel s) (tailsA s) (tailsB s) (appended s) (wire s) (last_write s).
 Definition set_cur (v : nat) (s : state) : state :=
-  mkSt (total s) (pending s) (connected s) (will_close s) (cwf s) (nreq s) (olock s) (ocount s) (rlock s) (pulled s) (in_map s) (sock_closed s) (closed_bufs s) (reading s) (gone s) (pending_in s) (io s) (wk s) (wq s) (wclose s) v (queued s) (tailsA s) (tailsB s) (appended s) (wire s) (last_write s).
+  mkSt (total s) (pending s) (connected s) (will_close s) (cwf s) (nreq s) (olock s) (ocount s) (rlock s) (pulled s) (in_map s) (sock_closed s) (closed_bufs s) (reading s) (gone s) (pending_in s) (io s) (wk s) (wq s) (wclose s) v (queued s) (tlc s) (trel s) (tailsA s) (tailsB s) (appended s) (wire s) (last_write s).
 Definition set_queued (v : bool) (s : state) : state :=
-  mkSt (total s) (pending s) (connected s) (will_close s) (cwf s) (nreq s) (olock s) (ocount s) (rlock s) (pulled s) (in_map s) (sock_closed s) (closed_bufs s) (reading s) (gone s) (pending_in s) (io s) (wk s) (wq s) (wclose s) (cur s) v (tailsA s) (tailsB s) (appended s) (wire s) (last_write s).
+  mkSt (total s) (pending s) (connected s) (will_close s) (cwf s) (nreq s) (olock s) (ocount s) (rlock s) (pulled s) (in_map s) (sock_closed s) (closed_bufs s) (reading s) (gone s) (pending_in s) (io s) (wk s) (wq s) (wclose s) (cur s) v (tlc s) (trel s) (tailsA s) (tailsB s) (appended s) (wire s) (last_write s).
+Definition set_tlc (v : tlpc) (s : state) : state :=
+  mkSt (total s) (pending s) (connected s) (will_close s) (cwf s) (nreq s) (olock s) (ocount s) (rlock s) (pulled s) (in_map s) (sock_closed s) (closed_bufs s) (reading s) (gone s) (pending_in s) (io s) (wk s) (wq s) (wclose s) (cur s) (queued s) v (trel s) (tailsA s) (tailsB s) (appended s) (wire s) (last_write s).
+Definition set_trel (v : bool) (s : state) : state :=
+  mkSt (total s) (pending s) (connected s) (will_close s) (cwf s) (nreq s) (olock s) (ocount s) (rlock s) (pulled s) (in_map s) (sock_closed s) (closed_bufs s) (reading s) (gone s) (pending_in s) (io s) (wk s) (wq s) (wclose s) (cur s) (queued s) (tlc s) v (tailsA s) (tailsB s) (appended s) (wire s) (last_write s).
 Definition set_tailsA (v : nat) (s : state) : state :=
-  mkSt (total s) (pending s) (connected s) (will_close s) (cwf s) (nreq s) (olock s) (ocount s) (rlock s) (pulled s) (in_map s) (sock_closed s) (closed_bufs s) (reading s) (gone s) (pending_in s) (io s) (wk s) (wq s) (wclose s) (cur s) (queued s) v (tailsB s) (appended s) (wire s) (last_write s).
+  mkSt (total s) (pending s) (connected s) (will_close s) (cwf s) (nreq s) (olock s) (ocount s) (rlock s) (pulled s) (in_map s) (sock_closed s) (closed_bufs s) (reading s) (gone s) (pending_in s) (io s) (wk s) (wq s) (wclose s) (cur s) (queued s) (tlc s) (trel s) v (tailsB s) (appended s) (wire s) (last_write s).
 Definition set_tailsB (v : nat) (s : state) : state :=
-  mkSt (total s) (pending s) (connected s) (will_close s) (cwf s) (nreq s) (olock s) (ocount s) (rlock s) (pulled s) (in_map s) (sock_closed s) (closed_bufs s) (reading s) (gone s) (pending_in s) (io s) (wk s) (wq s) (wclose s) (cur s) (queued s) (tailsA s) v (appended s) (wire s) (last_write s).
+  mkSt (total s) (pending s) (connected s) (will_close s) (cwf s) (nreq s) (olock s) (ocount s) (rlock s) (pulled s) (in_map s) (sock_closed s) (closed_bufs s) (reading s) (gone s) (pending_in s) (io s) (wk s) (wq s) (wclose s) (cur s) (queued s) (tlc s) (trel s) (tailsA s) v (appended s) (wire s) (last_write s).
 Definition set_appended (v : Z) (s : state) : state :=
-  mkSt (total s) (pending s) (connected s) (will_close s) (cwf s) (nreq s) (olock s) (ocount s) (rlock s) (pulled s) (in_map s) (sock_closed s) (closed_bufs s) (reading s) (gone s) (pending_in s) (io s) (wk s) (wq s) (wclose s) (cur s) (queued s) (tailsA s) (tailsB s) v (wire s) (last_write s).
+  mkSt (total s) (pending s) (connected s) (will_close s) (cwf s) (nreq s) (olock s) (ocount s) (rlock s) (pulled s) (in_map s) (sock_closed s) (closed_bufs s) (reading s) (gone s) (pending_in s) (io s) (wk s) (wq s) (wclose s) (cur s) (queued s) (tlc s) (trel s) (tailsA s) (tailsB s) v (wire s) (last_write s).
 Definition set_wire (v : Z) (s : state) : state :=
-  mkSt (total s) (pending s) (connected s) (will_close s) (cwf s) (nreq s) (olock s) (ocount s) (rlock s) (pulled s) (in_map s) (sock_closed s) (closed_bufs s) (reading s) (gone s) (pending_in s) (io s) (wk s) (wq s) (wclose s) (cur s) (queued s) (tailsA s) (tailsB s) (appended s) v (last_write s).
+  mkSt (total s) (pending s) (connected s) (will_close s) (cwf s) (nreq s) (olock s) (ocount s) (rlock s) (pulled s) (in_map s) (sock_closed s) (closed_bufs s) (reading s) (gone s) (pending_in s) (io s) (wk s) (wq s) (wclose s) (cur s) (queued s) (tlc s) (trel s) (tailsA s) (tailsB s) (appended s) v (last_write s).
 Definition set_last_write (v : Z) (s : state) : state :=
-  mkSt (total s) (pending s) (connected s) (will_close s) (cwf s) (nreq s) (olock s) (ocount s) (rlock s) (pulled s) (in_map s) (sock_closed s) (closed_bufs s) (reading s) (gone s) (pending_in s) (io s) (wk s) (wq s) (wclose s) (cur s) (queued s) (tailsA s) (tailsB s) (appended s) (wire s) v.
+  mkSt (total s) (pending s) (connected s) (will_close s) (cwf s) (nreq s) (olock s) (ocount s) (rlock s) (pulled s) (in_map s) (sock_closed s) (closed_bufs s) (reading s) (gone s) (pending_in s) (io s) (wk s) (wq s) (wclose s) (cur s) (queued s) (tlc s) (trel s) (tailsA s) (tailsB s) (appended s) (wire s) v.
 
 Definition init : state :=
   mkSt 0 0 true false false 0%nat None 0%nat None false true false false true false 0%nat
-       IoRd1 WIdle [] false 0%nat false 0%nat 0%nat 0 0 0.
+       IoRd1 WIdle [] false 0%nat false TNone false 0%nat 0%nat 0 0 0.
 
 (* ---- helpers --------------------------------------------------------- *)
 
@@ -260,14 +272,11 @@ Definition send_ok (k : Z) (s : state) : bool :=
 (* ---- the I/O thread --------------------------------------------------- *)
 
 (* end of _flush_some on the I/O side *)
-Definition io_flush_done (p : params) (m : fmode) (s : state) : state :=
-  match m with
-  | MU => set_io IoHw3 s
-  | ML => set_io (if total s <? hw p then IoNotify else IoRelL) s   (* channel.py:255 *)
-  end.
+Definition io_flush_done (p : params) (s : state) : state :=
+  set_io (if total s <? hw p then IoNotify else IoRelL) s.   (* _flush_some_if_lockable: "if total < high_watermark: notify" *)
 
-Definition enter_io_flush (p : params) (m : fmode) (s : state) : state :=
-  if pending s <=? 0 then io_flush_done p m s else set_io (IoFlush m) s.
+Definition enter_io_flush (p : params) (s : state) : state :=
+  if pending s <=? 0 then io_flush_done p s else set_io IoFlush s.
 
 (* handle_close(): "with self.outbuf_lock" is re-entrant for the holder *)
 Definition enter_hc (k : hck) (s : state) : state :=
@@ -317,33 +326,28 @@ Definition step_io (p : params) (s : state) (r : sendres) (res : Z) : option (st
   | IoRcvRel ww =>
     Some ((if ww then set_io IoHw1 (set_rlock None s) else to_top (set_rlock None s)), [Lb TIo KRRel])
   (* handle_write: channel.py:95-120 *)
-  | IoHw1 => Some ((if (nreq s =? 0)%nat then enter_io_flush p MU s else set_io IoHw2 s), [Lb TIo KRreq])
+  | IoHw1 => Some (set_io (if (nreq s =? 0)%nat then IoTry else IoHw2) s, [Lb TIo KRreq])
   | IoHw2 => Some (set_io (if sb p <=? total s then IoTry else IoHw3) s, [Lb TIo KRtotal])
   | IoTry =>
     match olock s with
-    | None => Some (enter_io_flush p ML (acq TIo 1 s), [Lb TIo KTry])
+    | None => Some (enter_io_flush p (acq TIo 1 s), [Lb TIo KTry])
     | Some _ => Some (set_io IoHw3 s, [Lb TIo KTry])
     end
-  (* _flush_some(do_close=True): one socket send *)
-  | IoFlush m =>
+  (* _flush_some(do_close=True) inside _flush_some_if_lockable: one socket send *)
+  | IoFlush =>
     match r with
     | SR k =>
       if send_ok k s then
-        Some (set_io (match m with ML => IoSubL k | MU => IoSubR k end)
-                (set_wire (wire s + k) (set_pending (pending s - k) s)),
+        Some (set_io (IoSubL k) (set_wire (wire s + k) (set_pending (pending s - k) s)),
               [Lb TIo KSend; LWire TIo k])
       else None
-    | SRBlock => Some (io_flush_done p m s, [Lb TIo KSend])
-    | SRGone => Some (enter_hc (KFlush m) s, [Lb TIo KSend])
-    | SRErr => Some (set_io (match m with ML => IoRelX | MU => IoHwExn end) s, [Lb TIo KSend])
+    | SRBlock => Some (io_flush_done p s, [Lb TIo KSend])
+    | SRGone => Some (enter_hc KFlush s, [Lb TIo KSend])
+    | SRErr => Some (set_io IoRelX s, [Lb TIo KSend])
     end
   | IoSubL k =>
     let s1 := set_total (total s - k) s in
-    Some ((if pending s <=? 0 then io_flush_done p ML s1 else set_io (IoFlush ML) s1), [Lb TIo KWtotal])
-  | IoSubR k => Some (set_io (IoSubW k (total s)) s, [Lb TIo KRtotal])
-  | IoSubW k t =>
-    let s1 := set_total (t - k) s in
-    Some ((if pending s <=? 0 then io_flush_done p MU s1 else set_io (IoFlush MU) s1), [Lb TIo KWtotal])
+    Some ((if pending s <=? 0 then io_flush_done p s1 else set_io IoFlush s1), [Lb TIo KWtotal])
   | IoRelX => Some (set_io IoHwExn (rel s), [Lb TIo KRel])
   | IoHwExn => Some (set_io IoHw3 (set_will_close true s), [Lb TIo KWwc])
   | IoNotify => Some (set_io IoRelL (wake_w s), [Lb TIo KNotify])
@@ -373,7 +377,7 @@ Definition step_io (p : params) (s : state) (r : sendres) (res : Z) : option (st
     let s1 := set_sock_closed true (set_in_map false (set_connected false s)) in
     Some (match k with
           | KRead => set_io IoEof s1
-          | KFlush m => io_flush_done p m s1
+          | KFlush => io_flush_done p s1
           | KEnd => to_top s1
           end, [Lb TIo KWconn; LClosed])
   | IoEof => Some (to_top (set_connected false s), [Lb TIo KWconn])
@@ -382,6 +386,9 @@ Definition step_io (p : params) (s : state) (r : sendres) (res : Z) : option (st
 (* ---- the worker -------------------------------------------------------- *)
 
 Definition end_service (s : state) : state := set_wk (if wclose s then WCloseAcq else WKeepLen) s.
+
+(* the keep branch is past its last access to the output state: the rest of service() is [tlc] *)
+Definition hand_over (s : state) : state := set_wk WIdle (set_tlc TAcq s).
 
 Definition next_write (s : state) : state :=
   match wq s with [] => end_service s | _ :: _ => set_wk WWrConn s end.
@@ -484,14 +491,14 @@ Definition step_w (p : params) (s : state) (r : sendres) : option (state * list 
   | WRel => Some (next_write (rel s), [Lb TW KRel])
   | WRelRaise => Some (set_wk WCloseAcq (rel s), [Lb TW KRel; LRaise])
   (* service(), keep branch: 481-482 *)
-  | WKeepLen => Some (set_wk (if (1 <? nreq s)%nat then WFbTest else WPopAcq) s, [Lb TW KRreq])
-  | WFbTest => Some (set_wk (if hw p <? total s then WFbAcq else WPopAcq) s, [Lb TW KRtotal])
+  | WKeepLen => Some ((if (1 <? nreq s)%nat then set_wk WFbTest s else hand_over s), [Lb TW KRreq])
+  | WFbTest => Some ((if hw p <? total s then set_wk WFbAcq s else hand_over s), [Lb TW KRtotal])
   | WFbAcq =>
     match olock s with
     | None => Some (enter_flush p FS (acq TW 1 s), [Lb TW KAcq])
     | Some _ => None
     end
-  | WFbRel => Some (set_wk WPopAcq (rel s), [Lb TW KRel])
+  | WFbRel => Some (hand_over (rel s), [Lb TW KRel])
   (* close branch: 466-471 *)
   | WCloseAcq =>
     match rlock s with
@@ -501,32 +508,43 @@ Definition step_w (p : params) (s : state) (r : sendres) : option (state * list 
   | WCloseCwf => Some (set_wk WCloseReq (set_cwf true s), [Lb TW KWcwf])
   | WCloseReq => Some (set_wk WCloseRel (set_cur (cur s + nreq s)%nat (set_nreq 0%nat s)), [Lb TW KWreq])
   | WCloseRel => Some (set_wk WIdle (set_tailsA (S (tailsA s)) (set_rlock None s)), [Lb TW KRRel])
-  (* keep branch: 496-500 *)
-  | WPopAcq =>
-    match rlock s with
-    | None => Some (set_wk WPopPop (set_rlock (Some TW) s), [Lb TW KRAcq])
-    | Some _ => None
-    end
-  | WPopPop => Some (set_wk WPopConn (set_cur (S (cur s)) (set_nreq (pred (nreq s)) s)), [Lb TW KRreq])
-  | WPopConn =>
-    if connected s && (0 <? nreq s)%nat
-    then Some (set_wk WPopRel (set_queued true s), [Lb TW KRconn; LAddTask])
-    else Some (set_wk WPopRel s, [Lb TW KRconn])
-  | WPopRel => Some (set_wk WIdle (set_tailsA (S (tailsA s)) (set_rlock None s)), [Lb TW KRRel])
   end.
 
 (* ---- tails of service() (513-514) and the environment ------------------- *)
 
-Definition step_tail (s : state) (b : bool) : option (state * list label) :=
-  if b then
-    if (0 <? tailsB s)%nat
-    then Some (set_pulled true (set_tailsB (pred (tailsB s)) s), [Lb TT KPull])
-    else None
-  else
+Definition step_tail (s : state) (n : nat) : option (state * list label) :=
+  match n with
+  | 0%nat =>   (* with self.requests_lock: *)
+    match tlc s, rlock s with
+    | TAcq, None => Some (set_tlc TPop (set_rlock (Some TT) s), [Lb TT KRAcq])
+    | _, _ => None
+    end
+  | 1%nat =>   (* self.requests.pop(0) *)
+    match tlc s with
+    | TPop => Some (set_tlc TConn (set_cur (S (cur s)) (set_nreq (pred (nreq s)) s)), [Lb TT KRreq])
+    | _ => None
+    end
+  | 2%nat =>   (* if self.connected and self.requests: self.server.add_task(self) *)
+    match tlc s with
+    | TConn =>
+      if connected s && (0 <? nreq s)%nat
+      then Some (set_trel true (set_tlc TNone (set_queued true s)), [Lb TT KRconn; LAddTask])
+      else Some (set_trel true (set_tlc TNone s), [Lb TT KRconn])
+    | _ => None
+    end
+  | 3%nat =>   (* end of the with block *)
+    if trel s then Some (set_tailsA (S (tailsA s)) (set_trel false (set_rlock None s)), [Lb TT KRRel]) else None
+  | 4%nat =>   (* if self.connected: *)
     if (0 <? tailsA s)%nat
     then Some ((if connected s then set_tailsB (S (tailsB s)) (set_tailsA (pred (tailsA s)) s)
                 else set_tailsA (pred (tailsA s)) s), [Lb TT KRconn])
-    else None.
+    else None
+  | 5%nat =>   (* self.server.pull_trigger() *)
+    if (0 <? tailsB s)%nat
+    then Some (set_pulled true (set_tailsB (pred (tailsB s)) s), [Lb TT KPull])
+    else None
+  | _ => None
+  end.
 
 Definition step_env (s : state) (a : envact) : option (state * list label) :=
   match a with
@@ -540,7 +558,7 @@ Definition step (p : params) (s : state) (c : choice) : option (state * list lab
   match c with
   | CIo r res => step_io p s r res
   | CW r => step_w p s r
-  | CTail b => step_tail s b
+  | CTail n => step_tail s n
   | CEnv a => step_env s a
   end.
 
@@ -575,7 +593,8 @@ Definition io_idle (p : params) (s : state) : bool := io_blocked s || io_spinnin
 
 (* no logical thread other than the environment can move *)
 Definition quiescent (s : state) : bool :=
-  io_blocked s && (tailsA s =? 0)%nat && (tailsB s =? 0)%nat
+  io_blocked s && (tailsA s =? 0)%nat && (tailsB s =? 0)%nat && negb (trel s)
+  && match tlc s with TNone => true | TAcq => match rlock s with None => false | Some _ => true end | _ => false end
   && match wk s with
      | WIdle => negb (queued s)
      | WFbParked _ false | WFbParkedE _ false => true
